@@ -134,10 +134,14 @@ Proof.
   - rewrite Hs. replace (2 * n + 1 - 1)%Z with (n * 2)%Z by ring. apply Z.div_mul. lia.
 Qed.
 
-(* 6. Multi-step outputs: the scanning loop that resets its value at every marker returns the
-      block of the LAST marker (ORCA.py:356-374, G09.py:548-557,592-607, NWChem.py:283-294,
-      335-343, QChem.py:173-194,250-269). *)
-Theorem last_step_used :
+(* 6. Multi-step outputs (PARTIAL): the scanning loop that resets its value at every marker returns
+      the block of the LAST marker.  This is a statement about the loop shape `scan`; WHICH parsers
+      have that shape is tied by Corr.check_scan on multi-step outputs (ORCA / G09 / NWChem / Q-Chem
+      coordinates and gradients, ORCA charges).  It is NOT what every parser does: XTB takes the FIRST
+      "final structure" block (XTB.py:283-292 `break`), MOPAC the FIRST "TOTAL ENERGY"/"ETOT" line
+      (MOPAC.py:294-299), NWChem the FIRST Hessian block (NWChem.py:404-409 `next(...)`); real outputs
+      of these programs print those once, multi-occurrence behaviour is only exercised by the streams. *)
+Theorem last_step_used_partial :
   forall (A : Type) (cur : list (list A)) (ls : list (@oline A)),
     scan cur ls = last_step cur (markers ls) /\
     (forall steps s, last_step cur (steps ++ [s]) = s).
@@ -147,11 +151,13 @@ Proof.
   - intros steps. revert cur. induction steps as [|x steps IH]; intros cur s; cbn; auto.
 Qed.
 
-(* 7. Truncation.  For every strict prefix of the printed block that lacks a data line:
-      Q-Chem -> CouldNotGetProperty; ORCA -> either the complete matrix or a shape error, never
-      another matrix; Gaussian -> CouldNotGetProperty unless exactly 3N(3N+1)/2 numbers;
-      NWChem -> an accepted block has exactly 3N(3N+1)/2 numbers and 3N rows; per-atom tables
-      -> a short table is a shape error. *)
+(* 7. Truncation of the numeric blocks (line prefixes of the printed block):
+      Q-Chem -> CouldNotGetProperty for every prefix lacking a data line; ORCA block rule -> either the
+      complete matrix or a shape error, never another matrix; NWChem -> an accepted block has exactly
+      3N(3N+1)/2 numbers and 3N rows; a short per-atom GRADIENT table (n >= 1) -> shape error (tied by
+      Corr.check_table; short coordinate / charge tables are NOT covered: see Model.v table_parse).
+      Not covered by any theorem: line truncation of a Gaussian archive entry (no terminating \\@ ->
+      IndexError in the code; exercised by the synth-truncated stream only). *)
 Theorem truncation_detected :
   (forall (A : Type) (w : nat) (M : list (list A)) (m : nat),
       1 <= w -> M <> [] -> rect (List.length M) M -> m + 2 < List.length (qchem_lines w M) ->
@@ -160,10 +166,6 @@ Theorem truncation_detected :
       1 <= w -> M <> [] -> rect (List.length M) M -> orca_lines hdr w M = h :: rest ->
       orca_parse (List.length M) (h :: firstn m rest) = Ok M \/
       orca_parse (List.length M) (h :: firstn m rest) = ErrShape) /\
-  (forall (A : Type) (zero : A) (R : nat) (l : list A),
-      List.length l < tri R -> g09_hessian zero R l = ErrProperty) /\
-  (forall (A : Type) (zero : A) (R : nat) (l : list A) (M : list (list A)),
-      g09_hessian zero R l = Ok M -> List.length l = tri R /\ List.length M = R) /\
   (forall (A : Type) (zero : A) (R : nat) (ls : list (nat * list A)) (M : list (list A)),
       nwchem_hessian zero R ls = Ok M -> List.length M = R /\ nvalues A ls = tri R) /\
   (forall (A : Type) (n skip : nat) (ls : list (list A)),
@@ -171,20 +173,46 @@ Theorem truncation_detected :
 Proof.
   split; [intros; apply qchem_truncation; assumption|].
   split; [intros; eapply orca_truncation; eassumption|].
-  split; [intros; apply g09_truncated; assumption|].
-  split; [intros A zero R l M H; apply (g09_hessian_size A zero R l M H)|].
   split; [intros A zero R ls M H; apply (nwchem_truncated A zero R ls M H)|].
   intros A n skip ls Hn H. unfold table_parse. rewrite firstn_length, skipn_length.
   replace (Nat.min n (List.length ls - skip) =? n) with false; [reflexivity|].
   symmetry. apply Nat.eqb_neq. lia.
 Qed.
-(* ORCA .hess files (commit d8ad5dc): a file without its closing "$end" line - every file cut inside
-   or right after the Hessian block, also in the middle of a number - is CouldNotGetProperty;
-   with the "$end" line the block is parsed by the rule above *)
-Theorem orca_hess_requires_end :
-  forall (A : Type) (R : nat) (ls : list (list A)),
-    orca_hess_file false R ls = ErrProperty /\ orca_hess_file true R ls = orca_parse R ls.
-Proof. intros. split; reflexivity. Qed.
+(* Gaussian: the element-count guard G09.py:666-671 (a list of the wrong length - e.g. the archive of a
+   molecule with another atom count - is CouldNotGetProperty; what is accepted has exactly 3N(3N+1)/2
+   numbers and 3N rows).  This is NOT a statement about truncated files. *)
+Theorem g09_element_count_guard :
+  (forall (A : Type) (zero : A) (R : nat) (l : list A),
+      List.length l <> tri R -> g09_hessian zero R l = ErrProperty) /\
+  (forall (A : Type) (zero : A) (R : nat) (l : list A) (M : list (list A)),
+      g09_hessian zero R l = Ok M -> List.length l = tri R /\ List.length M = R).
+Proof.
+  split.
+  - intros A zero R l H. unfold g09_hessian. replace (List.length l =? tri R) with false; [reflexivity|].
+    symmetry. apply Nat.eqb_neq. exact H.
+  - intros A zero R l M H. apply (g09_hessian_size A zero R l M H).
+Qed.
+(* ORCA .hess files (ORCA.py:436-437, commit d8ad5dc), `is_end` = "the line starts with $end":
+   the complete file (block, blank line, further sections containing the $end line) gives the matrix;
+   EVERY file that ends inside or right after the block (no block line is an $end line), whatever is
+   cut - also in the middle of a number - is CouldNotGetProperty before anything is parsed. *)
+Theorem orca_hess_end_test :
+  forall (A : Type) (hdr : A) (is_end : list A -> bool) (w : nat) (M : list (list A)) h rest,
+    orca_lines hdr w M = h :: rest ->
+    (forall X, 1 <= w -> M <> [] -> rect (List.length M) M -> existsb is_end X = true ->
+               orca_hess_file is_end (List.length M) (h :: rest ++ [] :: X) = Ok M) /\
+    ((forall l, In l rest -> is_end l = false) ->
+     forall m R, orca_hess_file is_end R (h :: firstn m rest) = ErrProperty).
+Proof.
+  intros A hdr is_end w M h rest HL. split.
+  - intros X Hw Hne HR HX. apply (orca_hess_file_complete A hdr is_end w M h rest X Hw Hne HR HL HX).
+  - intros HE m R. apply (orca_hess_file_truncated A hdr is_end w M h rest m R HL HE).
+Qed.
+Example orca_hess_end_example :
+  let is_end := fun l => match l with [x] => x =? 999 | _ => false end in
+  orca_hess_file is_end 3 (orca_lines 0 2 [[1;2;3];[4;5;6];[7;8;9]] ++ [[]; [5; 5]; [999]]) = Ok [[1;2;3];[4;5;6];[7;8;9]] /\
+  orca_hess_file is_end 3 (firstn 9 (orca_lines 0 2 [[1;2;3];[4;5;6];[7;8;9]])) = ErrProperty.
+Proof. split; reflexivity. Qed.
 Example truncation_example :
   qchem_parse 3 (firstn 6 (qchem_lines 2 [[1;2;3];[4;5;6];[7;8;9]])) = ErrProperty /\
   orca_parse 3 (firstn 7 (orca_lines 0 2 [[1;2;3];[4;5;6];[7;8;9]])) = ErrShape.
@@ -201,19 +229,25 @@ Proof. split; [exact rnd_close|exact rnd_exact]. Qed.
    in order, coordinates rounded to 5 decimals); the title attributes of each frame are the
    StringDict lookups on that frame's own title *)
 Theorem xyz_roundtrip :
-  forall (valid_sym : str -> bool) (solvent_key : str),
+  forall (valid_sym : str -> bool) (solvent_key : str) (int_ok mult_ok float_ok solv_ok : str -> bool),
   (forall atoms title more, atoms <> [] -> labels_ok valid_sym atoms ->
       read_atoms valid_sym (write_frame atoms title ++ more) = Ok (map round_atom atoms)) /\
   (forall n (fs : list (list atom * str)), 1 <= n -> fs <> [] ->
-      Forall (fun fa => List.length (fst fa) = n /\ labels_ok valid_sym (fst fa)) fs ->
-      read_molecules valid_sym solvent_key (write_frames fs) = Ok (map (frame_of solvent_key) fs)).
+      Forall (fun fa => List.length (fst fa) = n /\ labels_ok valid_sym (fst fa) /\
+                        title_converts solvent_key int_ok mult_ok float_ok solv_ok (snd fa) = true) fs ->
+      read_molecules valid_sym solvent_key int_ok mult_ok float_ok solv_ok (write_frames fs)
+      = Ok (map (frame_of solvent_key) fs)).
 Proof.
-  intros v k. split; [intros; apply xyz_single; assumption|intros; eapply xyz_multi; eassumption].
+  intros v k i m f so. split; [intros; apply xyz_single; assumption|intros; eapply xyz_multi; eassumption].
 Qed.
 
 (* the default title written by Species.print_xyz_file (species.py:1181-1190) and the lookups:
    each attribute is found when no earlier whole-key match exists and the value is a single
-   token (decidable condition title_ok; it fails e.g. for solvent names with a blank) *)
+   token (decidable condition title_ok; it fails e.g. for solvent names with a blank).
+   NOTE (partial): title_ok is the search condition itself ("no match before this occurrence"); it is
+   not PROVED to hold for every title the writer can emit - it is evaluated by vm_compute on every
+   title written for the correspondence (Corr.lookup_all evaluates the four lookups: library solvents, random charge / mult /
+   energy).  The str -> int / float conversions of the values are outside the theorems. *)
 Definition title_ok (pre c m s e : str) : bool :=
   let E := s_ "E = " ++ e ++ s_ " Ha" in
   let S := s_ "solvent_name = " ++ s ++ s_ " " in
@@ -236,6 +270,20 @@ Proof.
   - rewrite <- H3. f_equal. rewrite <- !app_assoc. reflexivity.
   - rewrite <- H4. f_equal. rewrite <- !app_assoc. reflexivity.
 Qed.
+(* the same for the minimal title (no solvent, no energy - the common case) *)
+Definition title_ok_min (pre c m : str) : bool :=
+  lookup_ok (s_ "charge") pre c (s_ " mult = " ++ m ++ s_ " ") &&
+  lookup_ok (s_ "mult") (pre ++ s_ "charge = " ++ c ++ s_ " ") m (s_ " ").
+Theorem xyz_title_lookup_min :
+  forall pre c m, title_ok_min pre c m = true ->
+    let t := title_of pre c m None None in
+    sd_get (s_ "charge") t = Some c /\ sd_get (s_ "mult") t = Some m.
+Proof.
+  intros pre c m H t. unfold title_ok_min in H. apply andb_prop in H as [H1 H2].
+  apply sd_get_ok in H1. apply sd_get_ok in H2. unfold t, title_of. split.
+  - rewrite <- H1. f_equal.
+  - rewrite <- H2. f_equal. rewrite <- !app_assoc. reflexivity.
+Qed.
 Example title_ok_example :
   title_ok (s_ "Generated by autodE on: 2026-10-01. ") (s_ "-1") (s_ "2") (s_ "water") (s_ "-76.123457") = true.
 Proof. vm_compute. reflexivity. Qed.
@@ -244,8 +292,10 @@ Proof. vm_compute. reflexivity. Qed.
       count line and exactly that many well-formed atom lines; EVERY other file raises
       XYZfileWrongFormat (unknown element labels included, commit 432035c).
       Multi-frame reader: every accepted frame has exactly the declared number (>= 1) of atoms -
-      a truncated frame is never accepted - and EVERY rejected file raises XYZfileWrongFormat
-      (commits 432035c, 6bad5d6). *)
+      a truncated frame is never accepted; every rejected file raises XYZfileWrongFormat - malformed counts,
+      atom lines AND title values that do not convert (int charge, positive int mult, float E; commit
+      f5575d0) - the ONLY other outcome being SolventNotFound for a title naming an unknown solvent (an
+      AutodeException that names the problem; not counted as a malformed file). *)
 Theorem xyz_malformed_rejected :
   forall (valid_sym : str -> bool) (ls : list xline),
     (forall atoms, read_atoms valid_sym ls = Ok atoms ->
@@ -257,38 +307,50 @@ Proof.
   intros v ls. split; [intros atoms H; apply (read_atoms_sound v ls atoms H)|apply read_atoms_documented].
 Qed.
 Theorem xyz_multi_malformed_rejected :
-  forall (valid_sym : str -> bool) (key : str) (ls : list xline),
-    (forall frs, read_molecules valid_sym key ls = Ok frs ->
+  forall (valid_sym : str -> bool) (key : str) (int_ok mult_ok float_ok solv_ok : str -> bool) (ls : list xline),
+    let rd := read_molecules valid_sym key int_ok mult_ok float_ok solv_ok in
+    (forall frs, rd ls = Ok frs ->
         exists z rest, strip_blank ls = LTok [TInt z] :: rest /\ (0 < z)%Z /\
                        Forall (fun fr => List.length (f_atoms fr) = Z.to_nat z) frs) /\
-    ((exists frs, read_molecules valid_sym key ls = Ok frs) \/ read_molecules valid_sym key ls = ErrFormat).
+    (titles_solvent_ok key solv_ok (strip_blank ls) ->
+        (exists frs, rd ls = Ok frs) \/ rd ls = ErrFormat) /\
+    ((exists frs, rd ls = Ok frs) \/ rd ls = ErrFormat \/ rd ls = ErrOther).
 Proof.
-  intros v k ls. unfold read_molecules. split.
+  intros v k io mo fo so ls rd. unfold rd, read_molecules. split; [|split].
   - intros frs H. destruct (strip_blank ls) as [|l rest] eqn:E; [discriminate|].
     destruct l as [ts|t]; [|discriminate]. destruct ts as [|t ts]; [discriminate|].
     destruct t as [z| |]; try discriminate. destruct ts; [|discriminate].
     destruct (z <=? 0)%Z eqn:Ez; [discriminate|]. apply Z.leb_gt in Ez.
     exists z, rest. split; [reflexivity|]. split; [exact Ez|].
-    eapply Forall_impl; [|apply (read_frames_sound v k _ _ _ _ H)]. intros fr [H1 _]. exact H1.
-  - destruct (strip_blank ls) as [|l rest] eqn:E; [right; reflexivity|].
+    eapply Forall_impl; [|apply (read_frames_sound v k io mo fo so _ _ _ _ H)]. intros fr [H1 _]. exact H1.
+  - intros HT. destruct (strip_blank ls) as [|l rest] eqn:E; [right; reflexivity|].
     destruct l as [ts|t]; [|right; reflexivity]. destruct ts as [|t ts]; [right; reflexivity|].
     destruct t as [z| |]; try (right; reflexivity). destruct ts; [|right; reflexivity].
     destruct (z <=? 0)%Z; [right; reflexivity|].
-    destruct (read_frames_documented v k (Z.to_nat z) (List.length (LTok [TInt z] :: rest)) (LTok [TInt z] :: rest))
-      as [[f Hf]|Hf]; rewrite Hf; [left; eexists; reflexivity|right; reflexivity].
+    apply (read_frames_documented v k io mo fo so (Z.to_nat z) _ _ HT).
+  - destruct (strip_blank ls) as [|l rest] eqn:E; [right; left; reflexivity|].
+    destruct l as [ts|t]; [|right; left; reflexivity]. destruct ts as [|t ts]; [right; left; reflexivity|].
+    destruct t as [z| |]; try (right; left; reflexivity). destruct ts; [|right; left; reflexivity].
+    destruct (z <=? 0)%Z; [right; left; reflexivity|].
+    apply (read_frames_cases v k io mo fo so (Z.to_nat z)).
 Qed.
 Example xyz_malformed_examples :
   (* truncated single frame, truncated last frame of a multi-frame file, unknown element, bad count,
      and a valid file with a trailing blank line *)
   read_atoms (fun _ => true) [LTok [TInt 2]; LTitle []; LTok [TSym (s_ "H"); TInt 0; TInt 0; TInt 0]] = ErrFormat /\
-  read_molecules (fun _ => true) (s_ "solvent_name")
+  read_molecules (fun _ => true) (s_ "solvent_name") (fun _ => true) (fun _ => true) (fun _ => true) (fun _ => true)
     [LTok [TInt 2]; LTitle []; LTok [TSym (s_ "H"); TInt 0; TInt 0; TInt 0]] = ErrFormat /\
   read_atoms (fun s => negb (prefixb (s_ "Qq") s))
     [LTok [TInt 1]; LTitle []; LTok [TSym (s_ "Qq"); TInt 0; TInt 0; TInt 0]] = ErrFormat /\
-  read_molecules (fun _ => true) (s_ "solvent_name") [LTok [TSym (s_ "x")]] = ErrFormat /\
-  read_molecules (fun _ => true) (s_ "solvent_name") [LTok [TInt (-2)]; LTitle []] = ErrFormat /\
-  read_molecules (fun _ => true) (s_ "solvent_name") [LTok [TInt (-5)]; LTitle []; LTok [TSym (s_ "zz")]] = ErrFormat /\
-  (exists fr, read_molecules (fun _ => true) (s_ "solvent_name")
+  read_molecules (fun _ => true) (s_ "solvent_name") (fun _ => true) (fun _ => true) (fun _ => true) (fun _ => true) [LTok [TSym (s_ "x")]] = ErrFormat /\
+  (* a title value that does not convert (charge = x) is the format error; an unknown solvent is SolventNotFound *)
+  read_molecules (fun _ => true) (s_ "solvent_name") (fun v => negb (prefixb (s_ "x") v)) (fun _ => true) (fun _ => true) (fun _ => true)
+    [LTok [TInt 1]; LTitle (s_ "charge = x mult = 1"); LTok [TSym (s_ "H"); TInt 0; TInt 0; TInt 0]] = ErrFormat /\
+  read_molecules (fun _ => true) (s_ "solvent_name") (fun _ => true) (fun _ => true) (fun _ => true) (fun v => negb (prefixb (s_ "nota") v))
+    [LTok [TInt 1]; LTitle (s_ "solvent_name = notasolvent"); LTok [TSym (s_ "H"); TInt 0; TInt 0; TInt 0]] = ErrOther /\
+  read_molecules (fun _ => true) (s_ "solvent_name") (fun _ => true) (fun _ => true) (fun _ => true) (fun _ => true) [LTok [TInt (-2)]; LTitle []] = ErrFormat /\
+  read_molecules (fun _ => true) (s_ "solvent_name") (fun _ => true) (fun _ => true) (fun _ => true) (fun _ => true) [LTok [TInt (-5)]; LTitle []; LTok [TSym (s_ "zz")]] = ErrFormat /\
+  (exists fr, read_molecules (fun _ => true) (s_ "solvent_name") (fun _ => true) (fun _ => true) (fun _ => true) (fun _ => true)
     [LTok [TInt 1]; LTitle (s_ "charge = -1 mult = 2"); LTok [TSym (s_ "H"); TInt 0; TInt 0; TInt 0]; LTok []] = Ok [fr]
     /\ f_charge fr = Some (s_ "-1") /\ f_mult fr = Some (s_ "2")).
 Proof. repeat split; try reflexivity. eexists. split; [vm_compute; reflexivity|split; reflexivity]. Qed.
